@@ -92,7 +92,7 @@ Definition T_OVERFLOW := 524288.  (* 0 < y < 1 answered by +-Inf: the bracket ex
 (* ---------- "non-decreasing in y" on the observed values of one case ----------
    (Proofs: invcdf_generic_monotone_in_y holds for ANY F; the float64 bisection inherits it: two levels
    share the probes, and the first mid point at which they part separates the two results) *)
-Definition xr_le (tolrel : Q) (a b : xreal) : bool :=
+Definition xr_leb (tolrel : Q) (a b : xreal) : bool :=
   match a, b with
   | XNaN, _ | _, XNaN => false
   | XInf true, _ | _, XInf false => true
@@ -104,7 +104,7 @@ Fixpoint mono_against (tolrel : Q) (i : Z) (yi : Q) (xi : xreal) (rest : list (Z
   match rest with
   | [] => None
   | (j, yj, xj) :: r =>
-      if (Qle_bool yi yj && negb (xr_le tolrel xi xj)) || (Qle_bool yj yi && negb (xr_le tolrel xj xi)) then Some (i, j)
+      if (Qle_bool yi yj && negb (xr_leb tolrel xi xj)) || (Qle_bool yj yi && negb (xr_leb tolrel xj xi)) then Some (i, j)
       else mono_against tolrel i yi xi r
   end.
 Fixpoint mono_check (tolrel : Q) (l : list (Z * Q * xreal)) : option (Z * Z) :=
